@@ -11,6 +11,7 @@ import (
 	"testing"
 	"time"
 
+	"github.com/oneconcern/datamon/pkg/cafs"
 	"github.com/oneconcern/datamon/pkg/core"
 	"github.com/oneconcern/datamon/pkg/model"
 	"pgregory.net/rapid"
@@ -158,6 +159,10 @@ func jitter(seed uint64) memstore.Interceptor {
 	return func(c *memstore.Call) error {
 		x := (seed ^ uint64(c.Seq)*0x9E3779B97F4A7C15) * 0xBF58476D1CE4E5B9
 		n := int(x>>60) & 7
+		if c.Op == memstore.OpPut && c.Store == "blob" {
+			// widen the window between a writer's existence check and its write of a blob
+			n += 20 + int(x>>50)&31
+		}
 		for i := 0; i < n; i++ {
 			runtime.Gosched()
 		}
@@ -424,4 +429,110 @@ func TestProp(t *testing.T) {
 		stats.Case(out.sig, out.nontrivial, func() interface{} { return c })
 		stats.Count(fmt.Sprintf("ops_%d", len(c.Ops)), 1)
 	})
+}
+
+// rendezvous holds the first existence check of every writer on one blob key until all writers asked
+// (or a grace period elapsed: scenario shaping only), forcing check, check, ..., put, put, ...
+type rendezvous struct {
+	mu      sync.Mutex
+	key     string
+	want    int
+	arrived map[string]bool
+	open    chan struct{}
+	once    sync.Once
+}
+
+func (r *rendezvous) intercept(c *memstore.Call) error {
+	if c.Op != memstore.OpGetAttr || c.Key != r.key {
+		return nil
+	}
+	r.mu.Lock()
+	if r.arrived[c.Actor] {
+		r.mu.Unlock()
+		return nil
+	}
+	r.arrived[c.Actor] = true
+	n := len(r.arrived)
+	r.mu.Unlock()
+	if n >= r.want {
+		r.once.Do(func() { close(r.open) })
+	}
+	select {
+	case <-r.open:
+	case <-time.After(3 * time.Second):
+		r.once.Do(func() { close(r.open) })
+	}
+	return nil
+}
+
+// TestRegressIdenticalLeafWriters: N uploads and split uploads store the same not-yet-present content at the
+// same moment, with their existence checks on the first leaf forced to happen before any of their writes
+func TestRegressIdenticalLeafWriters(t *testing.T) {
+	for _, n := range []int{2, 4} {
+		sc := hx.NewScratch()
+		env := hx.NewEnv()
+		prep := env.Actor("prep")
+		if err := hx.CreateRepo(prep.Stores, repo); err != nil {
+			t.Fatal(err)
+		}
+		d1, err := hx.CreateDiamond(prep.Stores, repo)
+		if err != nil {
+			t.Fatal(err)
+		}
+		data := hx.Expand(uint64(1000+n), 2*leaf+5, 0, 0)
+		// uploads use the 4096 leaf, splits the default leaf: watch the first blob each kind writes
+		kUp, err := cafs.KeyFromBytes(data[:leaf], leaf, 1, false)
+		if err != nil {
+			t.Fatal(err)
+		}
+		kSplit, err := cafs.KeyFromBytes(data, model.NewBundleDescriptor().LeafSize, 0, true)
+		if err != nil {
+			t.Fatal(err)
+		}
+		rvUp := &rendezvous{key: kUp.String(), want: n, arrived: map[string]bool{}, open: make(chan struct{})}
+		rvSplit := &rendezvous{key: kSplit.String(), want: n, arrived: map[string]bool{}, open: make(chan struct{})}
+		errs := make([]error, 2*n)
+		ids := make([]string, 2*n)
+		var wg sync.WaitGroup
+		for i := 0; i < 2*n; i++ {
+			v := env.Actor(fmt.Sprintf("w%d", i))
+			v.Blob.Before(rvUp.intercept)
+			v.Blob.Before(rvSplit.intercept)
+			dir := sc.Dir("w")
+			if err := (hx.Tree{fmt.Sprintf("w%d/file", i): data}).Write(dir); err != nil {
+				t.Fatal(err)
+			}
+			wg.Add(1)
+			go func(i int, v *hx.Views, dir string) {
+				defer wg.Done()
+				if i < n {
+					b := hx.NewBundle(repo, v.Stores, hx.Local(dir), leaf, core.BundleID(hx.KSUID(200+i, uint64(i))))
+					errs[i] = core.Upload(context.Background(), b)
+					ids[i] = b.BundleID
+				} else {
+					_, errs[i] = hx.SplitAdd(v.Stores, repo, d1.DiamondID, fmt.Sprintf("split-%d", i), dir)
+				}
+			}(i, v, dir)
+		}
+		wg.Wait()
+		obs := env.Actor("obs")
+		for i := 0; i < 2*n; i++ {
+			if errs[i] != nil {
+				t.Fatalf("writer %d of %d storing content identical to its peers failed: %v", i, 2*n, errs[i])
+			}
+			if i < n {
+				tree, err := hx.Download(sc, obs.Stores, repo, ids[i])
+				if err != nil {
+					t.Fatalf("bundle of writer %d: %v", i, err)
+				}
+				if d := hx.DiffTrees(tree.WithoutMeta(), hx.Tree{fmt.Sprintf("w%d/file", i): data}); d != "" {
+					t.Fatalf("bundle of writer %d differs: %s", i, d)
+				}
+			}
+		}
+		stats.Case(fmt.Sprintf("identical-leaf-writers n=%d", n), true, func() interface{} {
+			return fmt.Sprintf("%d uploads + %d split uploads of identical new content, existence checks forced before writes", n, n)
+		})
+		sc.Close()
+	}
 }
